@@ -229,3 +229,124 @@ theorem C09_normalize (c : Cfg) (hp : 0 < c.period) :
 /-- The fixed tree computes `count_covered` with the exact `timedelta // timedelta` (the pinned tree divides
 two `total_seconds()` floats: `0.6 // 0.2 == 2.0`). -/
 theorem C09_count_covered_exact : countCoveredExact = true := by decide
+
+/-! ### The full statement -/
+
+/-- C09 in full: for every value type, sampling period > 0, alignment point, container of capacity ≥ 1 and update
+history (timestamps anywhere, values valid or missing): content, rejection, gap list, counts, oldest/newest, every
+index window, every datetime window (aligned or not), `MovingWindow.at`. -/
+def C09_statement : Prop :=
+  ∀ (α : Type) (c : Cfg), 0 < c.period → ∀ (buffer : List (Option α)), 1 ≤ buffer.length →
+  ∀ (h : List (Int × Option α)),
+    let s := run c (State.init buffer) h
+    let sp := Spec.run c buffer.length h
+    -- the buffer holds exactly the last valid value written to each slot of the window ending at the newest slot
+    abs s = sp
+    -- rejects updates older than that window (and only those), without side effect
+    ∧ (∀ ts v,
+        ((update c s ts v).2 = true ↔
+          ∃ n, sp.newest = some n ∧ normSlot c ts < n - ((buffer.length : Int) - 1))
+        ∧ ((update c s ts v).2 = true → (update c s ts v).1 = s))
+    -- gaps consistent with that content
+    ∧ ((s.newest = none → s.gaps = [])
+       ∧ ∀ n, s.newest = some n →
+          GapsInv buffer.length n s.gaps
+          ∧ ∀ k, n - ((buffer.length : Int) - 1) ≤ k → k ≤ n → (isMissing s.gaps k = true ↔ sp.val k = none))
+    -- valid count, oldest / newest timestamps, covered count
+    ∧ (countValid s = Spec.count buffer.length sp
+       ∧ ((Spec.count buffer.length sp = 0 ∧ oldestTs s = none ∧ newestTs s = none ∧ countCovered s = 0
+            ∧ ∀ j, sp.val j = none)
+          ∨ ∃ n k, Spec.count buffer.length sp ≠ 0 ∧ sp.newest = some n ∧ sp.IsOldestValid k
+            ∧ n - ((buffer.length : Int) - 1) ≤ k ∧ k ≤ n
+            ∧ oldestTs s = some k ∧ newestTs s = some n ∧ countCovered s = n - k + 1))
+    -- window queries by index and by arbitrary datetimes
+    ∧ (∀ fill : Option α,
+        ((∀ j, sp.val j = none) →
+          (∀ i j, windowIdx c s i j (some fill) = []) ∧ ∀ start end_, windowTs c s start end_ (some fill) = [])
+        ∧ (∀ n k, sp.newest = some n → sp.IsOldestValid k →
+            (∀ i j, windowIdx c s i j (some fill)
+              = sp.window (k + (sliceIndices i j (n - k + 1)).1) (k + (sliceIndices i j (n - k + 1)).2) fill)
+            ∧ ∀ start end_, windowTs c s start end_ (some fill)
+              = sp.window (max (normSlot c start) k) (min (normSlot c end_) (n + 1)) fill)
+        -- never more slots than the query spans
+        ∧ ∀ start end_,
+            (windowTs c s start end_ (some fill)).length ≤ (normSlot c end_ - normSlot c start).toNat
+            ∧ (c.period % 2 = 0 →
+                ((windowTs c s start end_ (some fill)).length : Int) * c.period ≤ max 0 (end_ - start) + c.period))
+    -- single-element access
+    ∧ (((∀ j, sp.val j = none) → (∀ i, atIndex s i = .indexError) ∧ ∀ ts, atTs c s ts = .indexError)
+       ∧ ∀ n k, sp.newest = some n → sp.IsOldestValid k →
+          (∀ i, atIndex s i =
+            if -(n - k + 1) ≤ i ∧ i < n - k + 1 then .value (sp.val ((if i ≥ 0 then k else n + 1) + i))
+            else .indexError)
+          ∧ ∀ ts, atTs c s ts =
+            if ts < slotTime c k ∨ ts > slotTime c n then .indexError else .value (sp.val (normSlot c ts)))
+
+theorem C09_full : C09_statement := by
+  intro α c hp buffer hb h s sp
+  refine ⟨C09_refines c buffer hb h, fun ts v => C09_reject_old c buffer hb h ts v, C09_gaps c buffer hb h,
+    C09_counts c buffer hb h, fun fill => ⟨?_, ?_, ?_⟩, C09_at c hp buffer hb h⟩
+  · intro hall
+    exact ⟨((C09_window_aligned c hp buffer hb h fill).1 hall).1,
+      fun start end_ => (C09_window_unaligned c hp buffer hb h fill start end_).1 hall⟩
+  · intro n k hn hk
+    exact ⟨((C09_window_aligned c hp buffer hb h fill).2 n k hn hk).1,
+      fun start end_ => (C09_window_unaligned c hp buffer hb h fill start end_).2.1 n k hn hk⟩
+  · intro start end_
+    exact (C09_window_unaligned c hp buffer hb h fill start end_).2.2
+
+/-! ### Non-vacuity and the DESIGN witnesses on the (fixed) model
+
+Capacity 5, period 1 s, values 10..14 written at 0..4 s, then a missing value at 2 s. -/
+
+/-- The hypotheses of the window / `at` theorems are satisfiable: a state with valid data and a gap in the middle,
+whose abstract map has newest slot 4 and oldest valid slot 0. -/
+example :
+    let c : Cfg := { align := 0, period := 1000000 }
+    let h : List (Int × Option Nat) :=
+      [(0, some 10), (1000000, some 11), (2000000, some 12), (3000000, some 13), (4000000, some 14), (2000000, none)]
+    (0 < c.period ∧ 1 ≤ [none, none, none, none, (none : Option Nat)].length)
+    ∧ ∃ n k, (Spec.run c 5 h).newest = some n ∧ (Spec.run c 5 h).IsOldestValid k ∧ k < n := by
+  intro c h
+  refine ⟨by decide, ?_⟩
+  have hc := C09_counts c [none, none, none, none, (none : Option Nat)] (by decide) h
+  obtain ⟨hcv, hcase⟩ := hc
+  have hne : countValid (run c (State.init [none, none, none, none, (none : Option Nat)]) h) = 4 := by decide
+  have hold : oldestTs (run c (State.init [none, none, none, none, (none : Option Nat)]) h) = some 0 := by decide
+  have hnew : newestTs (run c (State.init [none, none, none, none, (none : Option Nat)]) h) = some 4 := by decide
+  rcases hcase with ⟨h0, _⟩ | ⟨n, k, _, h2, h3, _, _, h6, h7, _⟩
+  · exfalso
+    have : (Spec.count 5 (Spec.run c 5 h) : Int) = 4 := by rw [← hne]; exact hcv.symm
+    have h0' : Spec.count 5 (Spec.run c 5 h) = 0 := h0
+    omega
+  · have e1 : k = 0 := by rw [hold] at h6; cases h6; rfl
+    have e2 : n = 4 := by rw [hnew] at h7; cases h7; rfl
+    exact ⟨n, k, h2, h3, by omega⟩
+
+/-- DESIGN §5 #5: `window(1.1 s, 1.3 s)` is empty (the pinned tree returned the whole buffer). -/
+example :
+    windowTs { align := 0, period := 1000000 }
+      (run { align := 0, period := 1000000 } (State.init [none, none, none, none, (none : Option Nat)])
+        [(0, some 10), (1000000, some 11), (2000000, some 12), (3000000, some 13), (4000000, some 14)])
+      1100000 1300000 (some none) = [] := by decide
+
+/-- DESIGN §5 #6: with a gap at 2 s, `window(0.4 s, 4.4 s) = [10, 11, nan, 13]` (pinned: `[10, nan, nan, 13]`). -/
+example :
+    windowTs { align := 0, period := 1000000 }
+      (run { align := 0, period := 1000000 } (State.init [none, none, none, none, (none : Option Nat)])
+        [(0, some 10), (1000000, some 11), (2000000, some 12), (3000000, some 13), (4000000, some 14), (2000000, none)])
+      400000 4400000 (some none) = [some 10, some 11, none, some 13] := by decide
+
+/-- DESIGN §5 #7: after a jump to 7 s, `at(2)` and `mw[5 s]` are gap slots (NaN, not the evicted 10 / 11) and
+`at(count_covered)` is out of range. -/
+example :
+    let c : Cfg := { align := 0, period := 1000000 }
+    let s := run c (State.init [none, none, none, none, (none : Option Nat)])
+      [(0, some 10), (1000000, some 11), (2000000, some 12), (3000000, some 13), (4000000, some 14), (7000000, some 17)]
+    atIndex s 2 = .value none ∧ atTs c s 5000000 = .value none ∧ countCovered s = 5 ∧ atIndex s 5 = .indexError
+    ∧ atIndex s 0 = .value (some 13) ∧ atIndex s (-1) = .value (some 17) := by decide
+
+/-- Capacity 1: the empty range left by a jump (second disjunct of `GapsInv`) does occur. -/
+example :
+    (run { align := 0, period := 1000000 } (State.init [(none : Option Nat)]) [(3000000, some 1)]).gaps = [(3, 3)] := by
+  decide
